@@ -604,6 +604,9 @@ class WriteWalker:
                 if pt is None:
                     raise self.ctx.err(s, 'unrecognised if in write(): %s' % _dump(s.test))
                 field, style = pt
+                if style in ('truthy_value', 'truthy_other'):
+                    raise self.ctx.err(s, 'presence of %s is tested on its Python VALUE (`if self.%s:`): a field holding 0 / False / an empty '
+                                          'string would be silently dropped; not expressible' % (field, _dump(s.test)))
                 if len(s.body) != 1:
                     raise self.ctx.err(s, 'presence test guards %d statements, expected one write' % len(s.body))
                 b = s.body[0]
@@ -687,6 +690,32 @@ def method_args(ctx, fdef):
     return names[1]
 
 
+def setter_kinds(ctx, kinds, field):
+    """What the public property setter of `field` constructs (new-style classes): the set of (tag, kind) of every
+    `self._field = <Ctor>(..., value=value, ...)` in the setter that can be evaluated with value=None."""
+    import textwrap
+    p = inspect.getattr_static(ctx.cls, field, None)
+    if not isinstance(p, property) or p.fset is None:
+        return None
+    try:
+        tree = ast.parse(textwrap.dedent(inspect.getsource(p.fset)))
+    except Exception:
+        return None
+    out = set()
+    for n in ast.walk(tree):
+        if isinstance(n, ast.Assign) and len(n.targets) == 1 and _self_attr(n.targets[0]) == '_' + field \
+                and isinstance(n.value, ast.Call):
+            if any(_is_name(x, 'self') for x in ast.walk(n.value)):
+                continue
+            try:
+                code = compile(ast.fix_missing_locations(ast.Expression(n.value)), ctx.file, 'eval')
+                obj = eval(code, dict(ctx.mod.__dict__, value=None))
+                out.add(kinds.classify(ctx, n.value, obj))
+            except Exception:
+                continue
+    return out
+
+
 def translate_class(ctx, kinds):
     fdefs = {f.name: f for f in ctx.cdef.body if isinstance(f, ast.FunctionDef) and f.name in ('read', 'write')}
     rdef, wdef = fdefs['read'], fdefs['write']
@@ -714,6 +743,15 @@ def translate_class(ctx, kinds):
     if minver is not None:
         for it in r.items + w.items:
             it['lo'] = max(it['lo'], minver)
+    # the public setter (constructor path) must build the same item the reader decodes
+    for it in r.items:
+        sk = setter_kinds(ctx, kinds, it['field'])
+        if sk:
+            bad = [x for x in sk if x != (it['tag'], it['kind'])]
+            if bad:
+                raise Untranslatable(ctx.file, it['line'], '%s: read() decodes %s as tag %#x %s but its setter constructs tag %#x %s' % (
+                    ctx.name, it['field'], it['tag'], '/'.join(it['kind']), bad[0][0], '/'.join(bad[0][1])))
+            it['setter_checked'] = True
     # associate written fields with what the reader constructs for the same attribute
     by_field = {}
     for it in r.items:
